@@ -123,6 +123,9 @@ enum Act {
     Merge(u8, u8),
     SplitAt(u8, u8),
     SplitBy(u8, u8),
+    /// split_by with a predicate on the element VALUE ("value is in this subset of {0,1,2}"), offered only
+    /// where that predicate is prefix-monotone on the current sequence
+    SplitByVal(u8, u8),
     InsertAt(u8, u8, u8, u8),
     RemoveAt(u8, u8),
     Apply(u8, u8),
@@ -372,6 +375,15 @@ impl System for Sys {
                     v.push(Act::SplitBy(i, pos));
                 }
             }
+            for mask in 0..8u8 {
+                let pat: Vec<bool> = s.models[i as usize].iter().map(|e| (mask >> e.1) & 1 == 1).collect();
+                let k = pat.iter().take_while(|b| **b).count();
+                let monotone = pat[k..].iter().all(|b| !*b);
+                let needs_slot = k != 0 && k != pat.len();
+                if monotone && (!needs_slot || s.slots.len() < self.max_slots) {
+                    v.push(Act::SplitByVal(i, mask));
+                }
+            }
             if total < self.max_nodes {
                 let pcs: Vec<u8> = if self.p0.is_some() { (1..=2 * nlev + 1).collect() } else { vec![2 * nlev + 1] };
                 for pos in 0..=len {
@@ -427,11 +439,18 @@ impl System for Sys {
                 s.models[i].extend(mj);
                 out = 0;
             }
-            Act::SplitAt(i, pos) | Act::SplitBy(i, pos) => {
-                let (i, pos) = (i as usize, pos as usize);
+            Act::SplitAt(i, _) | Act::SplitBy(i, _) | Act::SplitByVal(i, _) => {
+                let i = i as usize;
+                let pos = match *a {
+                    Act::SplitAt(_, p) | Act::SplitBy(_, p) => p as usize,
+                    Act::SplitByVal(_, mask) => s.models[i].iter().take_while(|e| (mask >> e.1) & 1 == 1).count(),
+                    _ => unreachable!(),
+                };
                 let t = std::mem::replace(&mut s.slots[i], Treap::new());
                 let (l, r) = if matches!(a, Act::SplitAt(..)) {
                     t.split_at(pos)
+                } else if let Act::SplitByVal(_, mask) = *a {
+                    t.split_by(|it| (mask >> it.val) & 1 == 1)
                 } else {
                     // prefix-monotone predicate: "this element is one of the first `pos` of the sequence"
                     let first: Vec<u8> = s.models[i][..pos].iter().map(|e| e.0).collect();
@@ -450,6 +469,15 @@ impl System for Sys {
                 let (i, pos) = (i as usize, pos as usize);
                 let id = Self::fresh_id(s);
                 if self.p0.is_some() {
+                    // Where is this thread's generator?  Draw one probe value and locate it in the oracle
+                    // sequence (normally exactly at this thread's own count; further on if the code under
+                    // test drew priorities the harness did not ask for).
+                    let probe = Node::new(It::new(0, 0)).priority;
+                    let c = MY_DRAWS.with(|c| c.get());
+                    match (c..c + 4096).find(|&k| oracle_get(k) == probe) {
+                        Some(k) => MY_DRAWS.with(|x| x.set(k + 1)),
+                        None => note_draws(1),
+                    }
                     // skip values too close to the ends of the u32 range to re-space around
                     let mut exp;
                     loop {
@@ -598,6 +626,7 @@ impl System for Sys {
             Act::Merge(..) => "merge",
             Act::SplitAt(..) => "split_at",
             Act::SplitBy(..) => "split_by",
+            Act::SplitByVal(..) => "split_by_value",
             Act::InsertAt(..) => "insert_at",
             Act::RemoveAt(..) => "remove_at",
             Act::Apply(..) => "apply",
@@ -810,6 +839,20 @@ fn sys_for(mode: Mode, n: usize, p0: Option<u32>) -> Sys {
 
 /// Some(_) iff the generator is per-thread and deterministic (two fresh threads and the oracle thread
 /// draw the same values), i.e. insert_at's priority can be controlled.
+/// Plain re-execution of a history on a FRESH thread (its priority generator at the start of its
+/// stream, advanced by `predraws` draws): identical every time, whatever the exploring threads had drawn.
+fn replay_fresh(mode: Mode, n: usize, p0: Option<u32>, hist: Vec<Value>, predraws: usize) -> Result<(), String> {
+    std::thread::spawn(move || {
+        for _ in 0..predraws {
+            let _ = Node::new(It::new(0, 0));
+        }
+        MY_DRAWS.with(|c| c.set(predraws));
+        replay_history(&sys_for(mode, n, p0), &hist)
+    })
+    .join()
+    .unwrap_or_else(|_| Err("replay thread panicked".to_string()))
+}
+
 fn measure_p0() -> Option<u32> {
     let a = fresh_thread_draws(4);
     let b = fresh_thread_draws(4);
@@ -870,7 +913,7 @@ fn main() {
             _ => {
                 let p0 = if v["controlled"].as_bool().unwrap_or(false) { measure_p0() } else { None };
                 let hist: Vec<Value> = v["history"].as_array().unwrap().clone();
-                replay_history(&sys_for(mode, v["n"].as_u64().unwrap() as usize, p0), &hist)
+                replay_fresh(mode, v["n"].as_u64().unwrap() as usize, p0, hist, v["predraws"].as_u64().unwrap_or(0) as usize)
             }
         }
     };
@@ -908,7 +951,10 @@ fn main() {
         table.push(json!({"max_nodes": n, "depth_bound": depth, "wall_s": (t0.elapsed().as_secs_f64() * 100.0).round() / 100.0, "result": r.to_json()}));
         if let Some(f) = &r.violation {
             let sig = format!("explore:N={}:{}", n, serde_json::to_string(&f.history).unwrap());
-            run.violation(Violation::new(sig, format!("[N={n}] {}", f.message), json!({"kind": "history", "n": n, "controlled": p0.is_some(), "history": f.history})));
+            // a defect that draws priorities of its own makes the outcome depend on where the thread's
+            // generator stands: look for the first stream offset at which a fresh thread reproduces it
+            let predraws = (0..24usize).find(|&d| replay_fresh(mode, n, p0, f.history.clone(), d).is_err()).unwrap_or(0);
+            run.violation(Violation::new(sig, format!("[N={n}] {}", f.message), json!({"kind": "history", "n": n, "controlled": p0.is_some(), "history": f.history, "predraws": predraws})));
             break;
         }
         for h in r.sample_histories.iter().take(1) {
@@ -935,6 +981,9 @@ fn main() {
         let n = if quick { 100_000 } else { 1_000_000 };
         let offsets: &[usize] = &[0, 1, 2, 3, 17, 1000];
         let cases: Vec<(&'static str, usize)> = MENU.iter().flat_map(|m| offsets.iter().map(move |o| (*m, *o))).collect();
+        // the two strictly monotone insertion orders are the ones a weak priority source degenerates on
+        // first: they run to 10^6 elements in the quick tier as well
+        let big = |m: &str, o: usize| -> usize { if quick && (m == "append" || m == "push_front") && (o == 0 || o == 17) { 1_000_000 } else { n } };
         let results: Vec<((&'static str, usize), Result<(usize, usize), String>)> = {
             use std::sync::Mutex;
             let out = Mutex::new(vec![]);
@@ -944,7 +993,7 @@ fn main() {
                     let out = &out;
                     sc.spawn(move || {
                         for (m, o) in ch {
-                            let r = menu_case(m, n, o);
+                            let r = menu_case(m, big(m, o), o);
                             out.lock().unwrap().push(((m, o), r));
                         }
                     });
@@ -967,7 +1016,7 @@ fn main() {
                     // one report per history: its first failing stream offset
                     if !failed_histories.contains(&m) {
                         failed_histories.push(m);
-                        run.violation(Violation::new(format!("menu:{m}:offset={o}:n={n}"), msg, json!({"kind": "menu", "name": m, "n": n, "offset": o})));
+                        run.violation(Violation::new(format!("menu:{m}:offset={o}:n={}", big(m, o)), msg, json!({"kind": "menu", "name": m, "n": big(m, o), "offset": o})));
                     }
                 }
             }
